@@ -1723,6 +1723,7 @@ namespace igris
 
         void erase(iterator newend)
         {
+            igris::array_destructor(newend, end());
             m_size = newend - m_data;
         }
 
